@@ -32,6 +32,11 @@ pub fn entropy<T: RealNumber>(data: &[T]) -> Option<T> {
         bincounts.insert(k, bincounts.get(&k).unwrap_or(&0) + 1);
     }
 
+    // a labelling with fewer than two classes carries no information
+    if bincounts.len() <= 1 {
+        return None;
+    }
+
     let mut entropy = T::zero();
     let sum = T::from_usize(bincounts.values().sum()).unwrap();
 
